@@ -216,7 +216,10 @@ def expected_top_choices(story, st, sec=None, own_used=None):
         if not c.get("sticky", True):
             if txt is None:
                 return None
-            if f"{pid}:{txt}:{c['target']}" in (own_used if own_used is not None else st["used"]):
+            if own_used is not None:
+                if (pid, txt, c["target"], c.get("section", 0)) in own_used:
+                    continue
+            elif f"{pid}:{txt}:{c['target']}" in st["used"]:
                 continue
         cond = c.get("condition")
         if cond and not _eval_cond(cond, env):
@@ -246,7 +249,8 @@ def oracle_c02(case):
             own_past = own_past[-50:]
             ch0 = prev["out"]["choices"][op["i"]]
             if not ch0["sticky"]:
-                own_used.add(f"{prev['out']['pid']}:{ch0['text']}:{ch0['target']}")
+                # (a choice is the one written at that place: same text and target in ANOTHER section is another choice)
+                own_used.add((prev["out"]["pid"], ch0["text"], ch0["target"], ch0.get("section", 0)))
         elif name == "undo" and resp.get("ret") is True:
             own_used = own_past.pop() if own_past else None
         if name in ("redo", "load", "fresh_load", "load_doc", "load_bad", "reset_one_time"):
@@ -316,7 +320,14 @@ def oracle_c02(case):
                     if hooks_now and pre_hook is not None and pre_hook != st["vars"]:
                         exp0 = expected_top_choices(story, dict(st, vars=pre_hook), exp_sec, own_used)
                         stale = exp0 is not None and [(t, a, s_) for (t, a, s_, _) in exp0] == got_cmp
-                    cls = "C02-stale-after-hook" if stale else ("C02-leaked-scope" if leaked else None)
+                    # C02-F3: a one-time choice is hidden because ANOTHER choice of the passage with the same text and target
+                    # (in another @join section) was taken: the engine's record does not tell them apart
+                    twin = False
+                    if own_used is not None and len(exp_cmp) > len(got_cmp):
+                        for (t_, a_, s__, txt_) in exp:
+                            if not s__ and any(u[0] == final and u[1] == txt_ and u[2] == t_ and u[3] != exp_sec for u in own_used):
+                                twin = True
+                    cls = "C02-stale-after-hook" if stale else ("C02-leaked-scope" if leaked else ("C02-same-text-sections" if twin else None))
                     out.append(fail(i, f"offered top-level choices {got_cmp} but enabled ones are {exp_cmp}", cls))
         prev = st
     return out
